@@ -338,6 +338,7 @@ def r3_r4(p, rep):
     rep.rule("C15.R3", "the user function is embedded as a constant, never called while adapting", "T-EFF (flow of the `op` parameter)", floor=15)
     rep.rule("C15.R4", "sibling adapters agree", "T-SIB", floor=30)
     for fw, f in adapters(p):
+        f = common.inlined_view(p, f, "einx._src.frontend.impl", keep_loops=True)  # `op = _op_to_constant(op)` read in place
         prm = f.params[0]
         site = f.loc
         # uses of the parameter before it is rebound
@@ -358,6 +359,8 @@ def r3_r4(p, rep):
                     callee = norm(par.func).split(".")[-1]
                     if callee in ("_make_iskwarg", "constant", "callable"):
                         continue
+                    if callee == "getattr" and len(par.args) >= 2 and isinstance(par.args[1], ast.Constant) and isinstance(par.args[1].value, str) and par.args[1].value.startswith("__") and par.args[0] is n:
+                        continue  # the function's own metadata (__name__, __doc__): read, not called
                     pc = predicate_classes(p).get(callee)
                     if pc is not None:
                         # the constructor only looks at the function's signature
